@@ -27,7 +27,15 @@ def convex_polygon(rng, c, rad, n, step):
         p = [round((c[0] + rad * math.cos(a)) / step) * step, round((c[1] + rad * math.sin(a)) / step) * step]
         if not pts or pts[-1] != p:
             pts.append(p)
-    return pts if len(pts) >= 3 else convex_polygon(rng, c, rad, n, step)
+    # rounding to the lattice can make the polygon non-convex, self-intersecting or a sliver: keep strictly convex ones with a sensible area only
+    def strictly_convex(ps):
+        k = len(ps)
+        cr = [(ps[(i + 1) % k][0] - ps[i][0]) * (ps[(i + 2) % k][1] - ps[(i + 1) % k][1]) - (ps[(i + 1) % k][1] - ps[i][1]) * (ps[(i + 2) % k][0] - ps[(i + 1) % k][0]) for i in range(k)]
+        area2 = abs(sum(ps[i][0] * ps[(i + 1) % k][1] - ps[(i + 1) % k][0] * ps[i][1] for i in range(k)))
+        return all(v > 0.02 * rad * rad for v in cr) and area2 > 0.5 * rad * rad
+    if len(pts) >= 3 and len(set(map(tuple, pts))) == len(pts) and strictly_convex(pts):
+        return pts
+    return convex_polygon(rng, c, rad, n, step)
 
 
 def inside_point(rng, corners):
@@ -117,7 +125,7 @@ def oracle(seed, tier):
         default = 0.0 if which == "min depth" else 1.7976931348623157e308
         extra = [inside_point(rng, corners) for _ in range(rng.choice([0, 1, 2, 3]))]
         extra = [[round(p[0] / step) * step, round(p[1] / step) * step] for p in extra]
-        extra = [p for p in extra if p not in corners and all(v != 0 for v in p)]
+        extra = [p for i, p in enumerate(extra) if p not in corners and p not in extra[:i] and all(v != 0 for v in p)]   # no point listed twice (which value wins is order dependent)
         if mode == "affine":
             bx, by = rng.choice([-100, 0, 50, 200]) * (1000.0 / step) * 1e-3 * (1 if not sph else 1e3), rng.choice([-50, 0, 100]) * (1000.0 / step) * 1e-3 * (1 if not sph else 1e3)
             f = lambda p: base + bx * (p[0] - c[0]) + by * (p[1] - c[1])
